@@ -54,6 +54,7 @@ CONTROLS = {
          "op2->pt == op2->next->pt || preserve_collinear_ ||", "T.removal"),
     ],
     "C04": [
+        ("SetOwner links a record below its own descendant", E, "    while (tmp && tmp != outrec) tmp = tmp->owner;\n    if (tmp) new_owner->owner = outrec->owner;", "    while (tmp && tmp != outrec) tmp = tmp->owner;", "OWNER.reparent"),
         ('local minimum without a hot edge on its left keeps the owner it had', 'CPP/Clipper2Lib/src/clipper.engine.cpp', '      else\n      {\n        outrec->owner = nullptr;', '      else\n      {', 'OWNER.assigned'),
         ('tree builder caches the number of output records', 'CPP/Clipper2Lib/src/clipper.engine.cpp', '    for (size_t i = 0; i < outrec_list_.size(); ++i)\n    {\n      OutRec* outrec = outrec_list_[i];\n      if (!outrec || !outrec->pts) continue;\n      if (outrec->is_open)\n      {\n        Path64 path;', '    const size_t cnt = outrec_list_.size();\n    for (size_t i = 0; i < cnt; ++i)\n    {\n      OutRec* outrec = outrec_list_[i];\n      if (!outrec || !outrec->pts) continue;\n      if (outrec->is_open)\n      {\n        Path64 path;', 'LOOP.bound-live'),
         ("a clear inside vote is sent to the midpoint fallback", E, "    if (std::abs(outside_cnt) > 1) return (outside_cnt < 0);", "    if (outside_cnt > 1) return false;", "T.inside-vote"),
@@ -93,6 +94,7 @@ CONTROLS = {
         ("Paths64 Execute no longer clears the tree target", O, "\tsolution = &paths64;\n\tsolution_tree = nullptr;", "\tsolution = &paths64;", "TARGET.set"),
     ],
     "C19": [
+        ("a triangle pattern is swept over two of its three vertices", H + "clipper.minkowski.h", "        for (size_t j = 0; j < patLen; j++)", "        for (size_t j = 0; j < (patLen == 3 ? 2 : patLen); j++)", "MINK.closing-edge"),
         ('the union helper keeps its clipper between calls', 'CPP/Clipper2Lib/include/clipper2/clipper.minkowski.h', '      Paths64 result;\n      Clipper64 clipper;\n      clipper.AddSubject(subjects);', '      Paths64 result;\n      static Clipper64 clipper;\n      clipper.AddSubject(subjects);', 'MINK.union'),
         ('degenerate quads skipped before the previous pattern index is advanced', 'CPP/Clipper2Lib/include/clipper2/clipper.minkowski.h', '          if (!IsPositive(quad))\n            std::reverse(quad.begin(), quad.end());', '          if (quad[0] == quad[2]) continue;\n          if (!IsPositive(quad))\n            std::reverse(quad.begin(), quad.end());', 'MINK.quad'),
         ("quads not normalised", H + "clipper.minkowski.h", "          if (!IsPositive(quad))\n            std::reverse(quad.begin(), quad.end());\n", "", "MINK.orientation"),
@@ -100,6 +102,7 @@ CONTROLS = {
         ("sum computed with the operands exchanged", H + "clipper.minkowski.h", "      if (patLen == 0 || pathLen == 0) return Paths64();\n", "      if (patLen == 0 || pathLen == 0) return Paths64();\n      if (isSum && pathLen > patLen) return Minkowski(path, pattern, true, isClosed);\n", "MINK.roles"),
     ],
     "C07": [
+        ("OffsetOpenPath gives up on a zero group delta", O, "\t// do the line start cap\n\tif (deltaCallback64_) group_delta_ = deltaCallback64_(path, norms, 0, 0);", "\t// do the line start cap\n\tif (deltaCallback64_) group_delta_ = deltaCallback64_(path, norms, 0, 0);\n\tif (group_delta_ == 0) return;", "EMIT.every-path"),
         ('only truly straight joins are sent to DoMiter', 'CPP/Clipper2Lib/src/clipper.offset.cpp', '\telse if (cos_a > 0.999 && join_type_ != JoinType::Round)', '\telse if (cos_a > 0.9999999 && join_type_ != JoinType::Round)', 'THRESHOLD.bisector'),
         ('miter allowed up to the limit itself instead of its cosine', 'CPP/Clipper2Lib/src/clipper.offset.cpp', '\t\tif (cos_a > temp_lim_ - 1) DoMiter(path, j, k, cos_a);', '\t\tif (cos_a > temp_lim_) DoMiter(path, j, k, cos_a);', 'JOIN.dispatch'),
         ('unit normal points to the left of the edge', 'CPP/Clipper2Lib/src/clipper.offset.cpp', '\treturn PointD(dy, -dx);', '\treturn PointD(-dy, dx);', 'POLY.offset'),
@@ -111,6 +114,7 @@ CONTROLS = {
         ("closing vertex stripped for open end types too", O, "\tfor (Path64& p: paths_in)\n\t  StripDuplicates(p, is_joined);", "\tfor (Path64& p: paths_in)\n\t  StripDuplicates(p, true);", "GROUP.strip-closed"),
     ],
     "C08": [
+        ("a closing vertex on the boundary always starts the scan on its side", R, "      if (prev == Location::Inside) loc = Location::Inside;\n    }\n    Location starting_loc = loc;", "    }\n    Location starting_loc = loc;", "START.location"),
         ('from the Top region the left side is tried wherever p is', 'CPP/Clipper2Lib/src/clipper.rectclip.cpp', '      else if ((p.x < rectPath[0].x) && GetSegmentIntersection(p, p2, rectPath[0], rectPath[3], ip))', '      else if (GetSegmentIntersection(p, p2, rectPath[0], rectPath[3], ip))', 'T.nearest-crossing'),
         ('between test of the second end point only accepts ascending sides', 'CPP/Clipper2Lib/src/clipper.rectclip.cpp', '      else if (IsHorizontal(p3, p4)) return ((p2.x > p3.x) == (p2.x < p4.x));', '      else if (IsHorizontal(p3, p4)) return ((p2.x > p3.x) && (p2.x < p4.x));', 'T.touching'),
         ('touching case of the third end point stores the fourth', 'CPP/Clipper2Lib/src/clipper.rectclip.cpp', '    if (res3 == 0)\n    {\n      ip = p3;', '    if (res3 == 0)\n    {\n      ip = p4;', 'POLY.intersect'),
@@ -218,6 +222,7 @@ CONTROLS = {
          "  ClipperOffset clip_offset( miter_limit,\n    arc_tolerance, false, reverse_solution);", "  ClipperOffset clip_offset( miter_limit,\n    arc_tolerance, reverse_solution);", "FORWARD.param"),
     ],
     "C18": [
+        ("PointInOpPolygon skips edges whose ends are not left of the point", E, "      if (pt.x < op2->pt.x && pt.x < op2->prev->pt.x);", "      if (pt.x <= op2->pt.x && pt.x <= op2->prev->pt.x);", "PIP.on-edge"),
         ('closing edge of PointInPolygon no longer reports IsOn', 'CPP/Clipper2Lib/include/clipper2/clipper.core.h', '      else prev = curr - 1;\n      double d = CrossProduct(*prev, *curr, pt);\n      if (d == 0) return PointInPolygonResult::IsOn;\n      if ((d < 0) == is_above) val = 1 - val;', '      else prev = curr - 1;\n      if ((CrossProduct(*prev, *curr, pt) < 0) == is_above) val = 1 - val;', 'PIP.on-edge'),
         ('parallel segments detected with a tolerance', 'CPP/Clipper2Lib/include/clipper2/clipper.core.h', '    double det = dy1 * dx2 - dy2 * dx1;\n    if (det == 0.0) return false;', '    double det = dy1 * dx2 - dy2 * dx1;\n    if (std::fabs(det) < 1e-9) return false;', 'POLY.intersect'),
         ('second unrolled term of Area has the opposite orientation', 'CPP/Clipper2Lib/include/clipper2/clipper.core.h', '      a += static_cast<double>(it1->y + it2->y) * (it1->x - it2->x);', '      a += static_cast<double>(it1->y + it2->y) * (it2->x - it1->x);', 'POLY.area'),
